@@ -87,3 +87,20 @@ package index
 //gvc:  ensures strip: err == nil && last != nil ==> e.w.#fedn >= n0 + 1 && exists(c, 0, len(last.Name) + 1, c <= len(entry.Name) && forall(k, 0, c, last.Name[k] == entry.Name[k]) && (c < len(last.Name) && c < len(entry.Name) ==> last.Name[c] != entry.Name[c]) && spec_ofs_value(e.w.#fedarr[n0], e.w.#fedoff[n0], e.w.#fedlen[n0]) == len(last.Name) - c)
 //gvc:  ensures first: err == nil && last == nil ==> e.w.#fedn >= n0 + 1 && spec_ofs_value(e.w.#fedarr[n0], e.w.#fedoff[n0], e.w.#fedlen[n0]) == 0
 //gvc:end
+
+// Resolve-undo records (git resolve-undo.c resolve_undo_read): after the path
+// and the three octal modes come the object names of the stages whose mode is
+// not zero, in ascending stage order. The names are read sequentially, so the
+// k-th name read must go to the k-th smallest present stage: the name read in
+// the iteration for position i belongs to stage i+1 (call-site obligation on
+// every ReadFrom; property C12: resolve-undo data decoded as git reports it,
+// deterministically).
+//gvc:func (*resolveUndoDecoder).readEntry
+//gvc:  props C12 C53
+//gvc:  theory int
+//gvc:  opt coarse
+//gvc:  opt frame args
+//gvc:  requires nn: d.r != nil && d.h != nil
+//gvc:  loop 2 invariant stages: 0 <= it2 && it2 <= 3
+//gvc:  sink ReadFrom requires slot: s == it2 + 1
+//gvc:end
